@@ -10,7 +10,7 @@ claims = {
  "C08": ("mint bound, counter == minted, accumulator update (BeginBlocker) and settle invariants of every capacity change; claim pays floor(Q) less debt", "DESIGN.md 6 C08"),
  "C10": ("actor clauses from the statement on Complete (assigned provider or its registered address), Cancel, Store (payer/gateway), Ready, Renew, Migrate (own completed shards only), Terminate and on the node handlers Create/Reset/Add/RemoveVstorage/ClaimReward (frames keyed by msg.Creator)", "DESIGN.md 6 C10"),
  "C12": ("scheduling and per-step progress contracts: Store/Ready schedule the first check strictly in the future, SetTimeoutOrderBlock keeps the queue, HandleTimeoutOrder leaves the order resolved or rescheduled (one known finding) and never touches a fully stored order; the step from per-step progress to 'eventually' is a meta-argument over block production", "DESIGN.md 6 C12"),
- "C13": ("relational clauses on the writers of orders and shards: NewOrder/GenerateShards/Store/Ready create exactly the listed shards pointing back at the order, HandleTimeoutOrder keeps every shard that names the order listed by it, HandleExpiredShard removes the order with its last shard and reschedules a renewed shard at its new end height, Complete schedules the release of the completed shard and hands the serving order and renewals to a migrated shard, NewMeta creates exactly one alias entry and RollbackMeta/DeleteMeta remove it with the model; the whole-state invariant is assumed at entry of each handler and re-established clause by clause, not discharged against InitGenesis", "DESIGN.md 6 C13"),
+ "C13": ("relational clauses on the writers of orders and shards: NewOrder/GenerateShards/Store/Ready create exactly the listed shards pointing back at the order, HandleTimeoutOrder keeps every shard that names the order listed by it, HandleExpiredShard removes the order with its last shard and reschedules a renewed shard at its new end height, Complete schedules the release of the completed shard and hands the serving order and renewals to a migrated shard, NewMeta creates exactly one alias entry and RollbackMeta/DeleteMeta remove it with the model; the rewrite of the renewal orders' shard lists when a migrated shard is completed (pointer lists, outside the verifier's reach) is decided by a bounded stand-in on the real application (two clauses of 9 histories each, labelled bounded, one recorded finding); the whole-state invariant is assumed at entry of each handler and re-established clause by clause, not discharged against InitGenesis", "DESIGN.md 6 C13"),
  "C11": ("scheduling contracts of the data-expiry schedule (set/remove/reset/rollback keep the model's single entry at CreatedAt+Duration of the stored record) and of the shard-expiry schedule (Complete, Renew, HandleExpiredShard reschedule at the end of the paid period)", "DESIGN.md 6 C11"),
  "C14": ("delta contracts for used capacity, shard collateral, worker storage/income and pool totals on every writer under contract", "DESIGN.md 6 C14"),
  "C16": ("identifier freshness and monotonicity of AppendOrder/AppendShard against the stored counters, with the id<count invariant as pre/postcondition", "DESIGN.md 6 C16"),
